@@ -425,7 +425,19 @@ def run(ctx):
     esc3(ctx, lib)
     from . import classprinter
     classprinter.raw1(ctx, lib, class_escape_closures(lib))
-    from . import counting
+    # TRI-1 (shared with C05): a trie edge that earlier test cases traverse is never rewritten.  A widened edge (v,min,max) stands for the counts min..max, but the
+    # minimiser tells labels apart by min or max only, so an inner count can be merged away (test case no longer matched).
+    from .C05 import tri1, lbl1
+    ctx.rule("TRI-1", "no petgraph edge/node mutation other than add_node/add_edge is reachable from the trie insertion")
+    ctx.rule("LBL-1", "predecessor states are collected under equality of the labels' values and agreement of their minimum or maximum (dominating true edge)")
+    lbl1(ctx, lib, tri1(ctx, lib))
+    from . import counting, minimise
+    minimise.rules(ctx)
+    minimise.check(ctx, lib)
+    from . import substring
+    substring.rules(ctx)
+    substring.check(ctx, lib)
     counting.rules(ctx)
     counting.cnt1(ctx, lib)
     counting.cnt2(ctx, lib)
+    counting.chr1(ctx, lib)
